@@ -25,7 +25,10 @@ Faults == {"none",
            "redeclares_default_symbol", "redeclares_earlier_symbol", "duplicate_public_key",
            "term_empty_oneof", "op_empty_oneof", "scope_empty_oneof", "mapkey_empty_oneof",
            "set_with_variable", "set_nested", "set_mixed_types", "check_no_queries", "check_unknown_kind",
-           "deep_array_nesting", "huge_symbol_table", "payload_garbage", "payload_empty"}
+           "deep_array_nesting", "huge_symbol_table", "payload_garbage", "payload_empty",
+           \* term values at the ends of their wire types: dates are 64-bit numbers of seconds
+           "date_year_minus_1", "date_year_minus_9999", "date_below_year_minus_9999", "date_i64_min", "date_u64_max",
+           "date_year_10000", "date_i64_max", "int_i64_min_fact", "bytes_empty", "string_empty_symbol"}
 
 \* ADVERSARIAL BUT WELL-FORMED contents: expressions whose operands are the extreme values of the term
 \* types.  They pass every validation stage; evaluating them must yield a value or an error ("run").
@@ -68,7 +71,9 @@ CaughtAt(f) ==
       [] f = "source" -> "never"                      \* unspecified: parsed or refused, never a crash
       [] f \in {"redeclares_default_symbol", "redeclares_earlier_symbol", "duplicate_public_key", "payload_garbage", "deep_array_nesting"} -> "decode"
       [] f \in {"expr_empty", "expr_binary_underflow", "expr_leftover", "expr_closure_first", "closure_two_params", "expr_ffi_name_out_of_range"} -> "run"
-      [] f \in {"check_no_queries", "huge_symbol_table", "payload_empty", "set_mixed_types", "version_absent"} -> "never"   \* unspecified: served or refused, never a crash
+      [] f \in {"check_no_queries", "huge_symbol_table", "payload_empty", "set_mixed_types", "version_absent",
+                "date_year_minus_1", "date_year_minus_9999", "date_below_year_minus_9999", "date_i64_min", "date_u64_max",
+                "date_year_10000", "date_i64_max", "int_i64_min_fact", "bytes_empty", "string_empty_symbol"} -> "never"   \* unspecified: served or refused, never a crash
       [] OTHER -> "load"
 
 \* where the adversarial block sits: in a signed token, or inside an authorizer SNAPSHOT (a token block
